@@ -2,6 +2,7 @@ package props
 
 import (
 	"fmt"
+	"math"
 	"math/big"
 	"strconv"
 	"strings"
@@ -44,9 +45,9 @@ func vBool(b bool) V {
 	return V{k: kBool, i: big.NewInt(0)}
 }
 func vFloat(f float64) V { return V{k: kFloat, f: f} }
-func vStr(s string) V  { return V{k: kStr, s: s} }
-func vTuple(xs ...V) V { return V{k: kTuple, items: xs} }
-func vList(xs ...V) V  { return V{k: kList, items: xs} }
+func vStr(s string) V    { return V{k: kStr, s: s} }
+func vTuple(xs ...V) V   { return V{k: kTuple, items: xs} }
+func vList(xs ...V) V    { return V{k: kList, items: xs} }
 
 var vNone = V{k: kNone}
 var vF = V{k: kFunc}
@@ -111,6 +112,15 @@ func (v V) Lit() string {
 	case kStr:
 		return pyStrLit(v.s)
 	case kFloat:
+		// non-finite floats have no literal: names bound by the prelude of the check that uses them
+		switch {
+		case math.IsNaN(v.f):
+			return "NAN"
+		case math.IsInf(v.f, 1):
+			return "INF"
+		case math.IsInf(v.f, -1):
+			return "(-INF)"
+		}
 		return strconv.FormatFloat(v.f, 'g', 17, 64) + floatDot(v.f)
 	case kTuple:
 		var p []string
@@ -355,6 +365,32 @@ func vEqual(a, b V) (bool, error) {
 }
 
 func mCompare(op string, a, b V) (V, error) {
+	// a non-finite float against a number: IEEE comparison (every comparison with nan is false
+	// except !=); the ints of the alphabets are small, so float64 is exact for them
+	if nf := func(v V) bool { return v.k == kFloat && (math.IsNaN(v.f) || math.IsInf(v.f, 0)) }; (nf(a) || nf(b)) && (a.isNum() || a.k == kFloat) && (b.isNum() || b.k == kFloat) {
+		f := func(v V) float64 {
+			if v.k == kFloat {
+				return v.f
+			}
+			x, _ := new(big.Float).SetInt(v.i).Float64()
+			return x
+		}
+		x, y := f(a), f(b)
+		switch op {
+		case "==":
+			return vBool(x == y), nil
+		case "!=":
+			return vBool(x != y), nil
+		case "<":
+			return vBool(x < y), nil
+		case "<=":
+			return vBool(x <= y), nil
+		case ">":
+			return vBool(x > y), nil
+		case ">=":
+			return vBool(x >= y), nil
+		}
+	}
 	switch op {
 	case "==", "!=":
 		eq, err := vEqual(a, b)
